@@ -12,7 +12,8 @@ patch=$OUT/patch$S.diff; demo=$OUT/demo${S}_test.go; meta=$OUT/meta$S.json
 dpath=$(python3 -c "import json;print(json.load(open('$meta'))['demo_path'])")
 cp $demo $WT/$dpath
 pkg=./$(dirname $dpath)
-run_demo() { go test -vet=off -count=1 -timeout 10m -run 'Demo' $pkg >/tmp/mut/$P/demo$S.$1.log 2>&1; echo $?; }
+pat=$(grep -oE '^func (Test[A-Za-z0-9_]+)' $demo | sed 's/func //' | paste -sd'|')
+run_demo() { go test -vet=off -count=1 -timeout 10m -run "^($pat)\$" $pkg >/tmp/mut/$P/demo$S.$1.log 2>&1; echo $?; }
 d0=$(run_demo clean)
 git apply $patch || { echo "{\"prop\":\"$P$S\",\"error\":\"patch does not apply\"}"; exit 1; }
 d1=$(run_demo patched)
